@@ -253,6 +253,34 @@ func (c *Ctl) Find(name string) *k3thread {
 
 // StepAssumeDone is Step for goroutines that end without announcing it (no VerifDone on their path): if the thread
 // neither parks again nor reports its end within `grace`, it is taken to have finished.
+// goroutineExists: is a goroutine with this id still alive (a full stack dump names every live goroutine)
+func goroutineExists(id uint64) bool {
+	buf := make([]byte, 1<<20)
+	for {
+		n := runtime.Stack(buf, true)
+		if n < len(buf) {
+			buf = buf[:n]
+			break
+		}
+		buf = make([]byte, 2*len(buf))
+	}
+	return bytes.Contains(buf, []byte(fmt.Sprintf("goroutine %d [", id)))
+}
+
+func (c *Ctl) gidOf(t *k3thread) (uint64, bool) {
+	c.mu.Lock()
+	defer c.mu.Unlock()
+	for g, x := range c.byGid {
+		if x == t {
+			return g, true
+		}
+	}
+	return 0, false
+}
+
+// StepAssumeDone releases a thread that may end without announcing it (a goroutine the hooks do not bracket with
+// VerifDone). It is taken for finished when, after the grace period, it has not parked again AND its goroutine no longer
+// exists; a goroutine that is merely slow (loaded machine) is waited for.
 func (c *Ctl) StepAssumeDone(name string, grace time.Duration) (from, to string, fresh []*k3thread, err error) {
 	old := c.timeout
 	c.timeout = grace
@@ -261,15 +289,28 @@ func (c *Ctl) StepAssumeDone(name string, grace time.Duration) (from, to string,
 	if err != nil {
 		if _, ok := err.(K3Stuck); ok {
 			if t := c.Find(name); t != nil {
-				c.mu.Lock()
-				still := t.parked
-				if !still {
-					t.done = true
-				}
-				c.mu.Unlock()
-				if !still {
-					c.Trace = append(c.Trace, fmt.Sprintf("%s:%s->done(assumed)", name, from))
-					return from, "done", fresh, nil
+				g, known := c.gidOf(t)
+				deadline := time.Now().Add(10 * time.Second)
+				for {
+					c.mu.Lock()
+					still := t.parked
+					c.mu.Unlock()
+					if still {
+						// it parked after all (late): consume its event and report the step as an ordinary one
+						if more, e2 := c.waitFor(t, 0); e2 == nil {
+							fresh = append(fresh, more...)
+						}
+						c.Trace = append(c.Trace, fmt.Sprintf("%s:%s->%s", name, from, t.label))
+						return from, t.label, fresh, nil
+					}
+					if !known || !goroutineExists(g) || time.Now().After(deadline) {
+						c.mu.Lock()
+						t.done = true
+						c.mu.Unlock()
+						c.Trace = append(c.Trace, fmt.Sprintf("%s:%s->done(assumed)", name, from))
+						return from, "done", fresh, nil
+					}
+					time.Sleep(time.Millisecond)
 				}
 			}
 		}
@@ -277,7 +318,6 @@ func (c *Ctl) StepAssumeDone(name string, grace time.Duration) (from, to string,
 	return
 }
 
-// Step releases a parked thread; returns its from/to labels and the threads that appeared.
 func (c *Ctl) Step(name string) (from, to string, fresh []*k3thread, err error) {
 	t := c.Find(name)
 	if t == nil || !t.parked {
